@@ -79,6 +79,10 @@ pub struct Model {
     /// in-flight transfers the admin re-sent by force: the scheduler makes them fail, and the ledgers treat
     /// them as already refunded (DESIGN 12.3 as built)
     pub doomed: BTreeSet<usize>,
+    /// unsolicited deposits (F22) sitting in the contract's account: staked asset, LST. They belong to
+    /// nobody's claim; the balance equations of C02 and C03 are read net of them.
+    pub donated_ibc: u128,
+    pub donated_lst: u128,
 }
 
 #[derive(Clone, Debug)]
@@ -294,7 +298,7 @@ impl Engine {
             fee_rate: sw.fee_rate,
             treasury: if sw.treasury { Some(w.setup.treasury_addr.clone()) } else { None },
             oracle: if sw.oracle { Some(w.setup.oracle_addr.clone()) } else { None },
-            monitors: a.mons[..sw.monitors as usize].to_vec(),
+            monitors: if sw.mon_rev { a.mons[..sw.monitors as usize].iter().rev().cloned().collect() } else { a.mons[..sw.monitors as usize].to_vec() },
             validators: a.vals[..2].to_vec(),
             staker: a.nstakers[0].clone(),
             collector: a.ncollectors[0].clone(),
@@ -321,6 +325,8 @@ impl Engine {
             recovered: BTreeSet::new(),
             lost_cb: BTreeSet::new(),
             reckless: false,
+            donated_ibc: 0,
+            donated_lst: 0,
             doomed: BTreeSet::new(),
         };
         Engine {
@@ -399,7 +405,10 @@ impl Engine {
             if tf.iter().any(|k| r.err.contains(k)) {
                 self.v("C19", "create_denom_accepted_by_target_chain", format!("the target chain's token factory refused the create-denom message of a valid instantiate: {}", r.err));
             } else {
-                self.v("HARNESS", "boot", format!("instantiate failed: {}", r.err));
+                // No property says which well-formed configurations must be accepted, so a tree that refuses
+                // this one is not in violation; the run cannot proceed and is set aside (the explorer turns a
+                // majority of such runs into a harness error).
+                self.v("NOBOOT", "valid_instantiate_refused", format!("instantiate failed: {}", r.err));
             }
             return;
         }
@@ -652,7 +661,7 @@ impl Engine {
         }
 
         // ---- C02: contract balance == owed
-        let bal = self.w.st.bank.balance(&s, &ibc) as i128;
+        let bal = self.w.st.bank.balance(&s, &ibc) as i128 - self.m.donated_ibc as i128;
         let owed_a: i128 = self.m.batches.values().filter(|b| b.status == 2).map(|b| b.received.unwrap_or(0) as i128 - b.paid as i128).sum();
         let refunded_ibc = self.refunded_not_resent(&ibc);
         // (c) cannot be negative: re-sending more than was refunded takes tokens backing other claims
@@ -684,7 +693,7 @@ impl Engine {
         if supply != post.l as i128 - self.m.adj_l {
             self.vo("C03", "supply_eq_total", format!("LST supply {} != State.total_liquid_stake_token {} - resume_adj {}", supply, post.l, self.m.adj_l));
         }
-        let own_lst = self.w.st.bank.balance(&s, &lst) as i128;
+        let own_lst = self.w.st.bank.balance(&s, &lst) as i128 - self.m.donated_lst as i128;
         let pend_total = post.pending.as_ref().map(|b| b.total).unwrap_or(0) as i128;
         let refunded_lst = self.refunded_not_resent(&lst);
         if own_lst != pend_total + refunded_lst.max(0) && !self.m.reckless {
